@@ -371,3 +371,32 @@ Proof.
   - assert (Hm : map fst (graph_skel E g1) = map fst (graph_skel E g2)) by (rewrite H; reflexivity).
     unfold graph_skel in Hm. rewrite !map_map in Hm. cbn [fst] in Hm. exact Hm.
 Qed.
+
+(* ---- line count: every node, every attribute, every edge and every edge attribute is printed on exactly one line ---- *)
+Definition node_line_count (n : gnode) : nat :=
+  (1 + length (g_attrs n) + fold_right (fun e acc => 1 + length (snd e) + acc) 0 (g_edges n))%nat.
+Definition graph_line_count (g : graph) : nat := fold_right (fun n acc => (node_line_count n + acc)%nat) 0%nat g.
+
+Lemma attr_plines_length E m : length (attr_plines E m) = length m.
+Proof. unfold attr_plines. rewrite map_length. symmetry. apply Permutation_length, sort_alist_perm. Qed.
+
+Lemma edge_plines_length E i es :
+  length (flat_map (edge_plines E i) es) = fold_right (fun e acc => (1 + length (snd e) + acc)%nat) 0%nat es.
+Proof.
+  induction es as [|e es IH]; cbn [flat_map fold_right]; [reflexivity|].
+  rewrite app_length, IH. unfold edge_plines. cbn [length]. rewrite attr_plines_length. reflexivity.
+Qed.
+
+Lemma node_plines_length E i n : length (node_plines E i n) = node_line_count n.
+Proof.
+  unfold node_plines, node_line_count. cbn [length]. rewrite app_length, attr_plines_length, edge_plines_length. reflexivity.
+Qed.
+
+Lemma graph_plines_length E g : forall i, length (graph_plines E i g) = graph_line_count g.
+Proof.
+  induction g as [|n g IH]; intros i; cbn [graph_plines graph_line_count fold_right]; [reflexivity|].
+  rewrite app_length, node_plines_length, IH. reflexivity.
+Qed.
+
+Lemma pretty_lines_count E g : length (pretty_lines E g) = graph_line_count g.
+Proof. unfold pretty_lines, pretty_plines. rewrite map_length. apply graph_plines_length. Qed.
